@@ -6,6 +6,18 @@ BASE_TB = ("Coq 8.16.1 kernel + vm_compute (no native_compute); no axioms declar
            "CPython/Django/re semantics modelled, not verified. ")
 
 CHECKS = {
+    "C01": dict(
+        text="Theorems (Coq, all programs/states/fuel, both modes) about the reference renderer Core/Sem.v: an unfilled slot renders its own default content "
+             "in its own instance (required => TemplateSyntaxError, and only then); a filled slot renders exactly the fill stored under its fill name in the "
+             "CURRENT instance's fills, run in the fill owner's instance; the default alias is the slot's own default content; is_filled is true exactly for "
+             "provided fills; an implicit body is exactly one `default` fill; page and loops are in-order compositions; results are independent of the fuel "
+             "bound. The implementation is tied to that renderer on every run: generated programs (both context behaviours) are rendered through the tag, the "
+             "dynamic component and Component.render and must equal the renderer's output (evaluated inside Coq).",
+        note=BASE_TB + "The reference renderer is a specification-level (lexical closure) model, not a transliteration of the Context-stack mechanism; the "
+             "instance-ownership claim is proved about the renderer and transferred to the code only by output equality on generated programs. Deferred "
+             "rendering is abstracted (C14 covers the queue).",
+        technique="Coq proof about a reference semantics (unfolding characterisations, fuel monotonicity by induction, composition lemmas) + differential correspondence on generated programs",
+        design="§6 C01, §11"),
     "C18": dict(
         text="Theorems (Coq, all histories / all capacities, no bounds): size<=cap, distinct keys, cap<=0 stores nothing, error branch unreachable, "
              "cache answers only what a dictionary would (and the unbounded cache is that dictionary), eviction drops exactly the least-recently-used "
